@@ -116,9 +116,9 @@ func (vc *VC) Bind(hint string, s Sort, t string) string {
 		vc.defs = map[string]string{}
 	}
 	vc.defs[n] = t
-	if s.IsArr() {
-		// array-valued (heap) terms get an opaque name so that they can occur in
-		// quantifier patterns
+	if s.IsArr() || (s != SBool && (strings.Contains(t, "(ite ") || strings.Contains(t, "(and ") || strings.Contains(t, "(or ") || strings.Contains(t, "(not "))) {
+		// array-valued (heap) terms and terms with logical structure get an
+		// opaque name so that they can occur in quantifier patterns
 		vc.cmds = append(vc.cmds, fmt.Sprintf("(declare-const %s %s)", n, s), fmt.Sprintf("(assert (= %s %s))", n, t))
 		return n
 	}
@@ -152,6 +152,10 @@ const preamble = `(declare-sort Str 0)
 // useLambda: render array definitions as lambdas in candidate-counterexample
 // mode (experimental; slower than dropping them with the installed z3).
 var useLambda = os.Getenv("GOVC_LAMBDA") == "1"
+
+// narrowQuant: quantified hypotheses do not propagate relevance (smaller
+// queries for obligations that time out with the full cone of influence).
+var narrowQuant = os.Getenv("GOVC_NARROW") == "1"
 
 var tokenRe = regexp.MustCompile(`[A-Za-z_$][A-Za-z0-9_$!.]*`)
 
@@ -245,6 +249,11 @@ func sliceCmdsCached(_ *VC, cmds []string, seeds ...string) []string {
 			return
 		}
 		keep[i] = true
+		if narrowQuant && strings.Contains(cmds[i], "(forall ") && cmdName(cmds[i]) == "" {
+			// a quantified hypothesis is kept when it talks about something the
+			// goal depends on, but it does not pull in further hypotheses
+			return
+		}
 		for _, t := range toks[i] {
 			if !need[t] {
 				need[t] = true
@@ -269,6 +278,30 @@ func sliceCmdsCached(_ *VC, cmds []string, seeds ...string) []string {
 				continue
 			}
 			include(i)
+		}
+	}
+	if narrowQuant {
+		// declarations / definitions of every symbol that a kept command
+		// mentions (closure over definitions only)
+		declOf := map[string]int{}
+		for i, c := range cmds {
+			if n := cmdName(c); n != "" {
+				declOf[n] = i
+			}
+		}
+		for changed := true; changed; {
+			changed = false
+			for i := range cmds {
+				if !keep[i] {
+					continue
+				}
+				for _, t := range toks[i] {
+					if j, ok := declOf[t]; ok && !keep[j] {
+						keep[j] = true
+						changed = true
+					}
+				}
+			}
 		}
 	}
 	var out []string
